@@ -8,6 +8,7 @@ import (
 	"os/exec"
 	"path/filepath"
 	"sort"
+	"strings"
 
 	"verifsim/core"
 )
@@ -85,9 +86,26 @@ func writeEvidence(def *checkDef, b *builder, results []*itemResult, nviol int, 
 		perHour = float64(evals) / simWall * 3600
 	}
 	zero := []string{}
+	ran := map[string]bool{}
+	for _, r := range results {
+		ran[strings.ToLower(r.item.workload)] = true
+	}
 	for n, c := range counters {
-		_ = c
-		_ = n
+		if c != 0 {
+			continue
+		}
+		// only probes of workloads that actually ran in this tier
+		dot := strings.IndexByte(n, '.')
+		if dot > 0 && (ran[n[:dot]] || (len(n[:dot]) == 3 && ran[n[:dot]+"f"] == false && ranPrefix(ran, n[:dot]))) {
+			zero = append(zero, n)
+		}
+	}
+	sort.Strings(zero)
+	for _, z := range zero {
+		delete(counters, z)
+	}
+	if len(zero) > 0 {
+		fmt.Printf("  warning: probes that stayed at zero in this run: %v\n", zero)
 	}
 	cov := map[string]interface{}{
 		"evaluations":                     evals,
@@ -128,6 +146,15 @@ func writeEvidence(def *checkDef, b *builder, results []*itemResult, nviol int, 
 	if err := core.WriteJSON(filepath.Join(dir, def.property+".json"), ev); err != nil {
 		infra("%v", err)
 	}
+}
+
+func ranPrefix(ran map[string]bool, p string) bool {
+	for w := range ran {
+		if strings.HasPrefix(w, p) {
+			return true
+		}
+	}
+	return false
 }
 
 func round1(f float64) float64 { return float64(int(f*10+0.5)) / 10 }
